@@ -223,12 +223,12 @@ fn check_flaky(b: &[u8], t: &mut Tape, cx: &mut Cx) -> Res {
                 (Caught::Panic(p), _) | (_, Caught::Panic(p)) => p.short(),
                 _ => String::new(),
             };
-            return fail(format!("{} decode panicked when the reader declined a bytes() request: {}", what, p), render());
+            return cx.fail_sig(sig_of(b), format!("{} decode panicked when the reader declined a bytes() request: {}", what, p), render);
         }
     }
     if let Caught::Monitor(p) = &r {
         if let Some(v) = p.downcast_ref::<ContractViolation>() {
-            return fail(format!("out-of-range {}({}) with {} remaining issued to a reader that had declined a bytes() request", v.method, v.requested, v.remaining), render());
+            return cx.fail_sig(sig_of(b), format!("out-of-range {}({}) with {} remaining issued to a reader that had declined a bytes() request", v.method, v.requested, v.remaining), render);
         }
     }
     if let Caught::Ok((Err(e), _)) = &r {
@@ -245,6 +245,9 @@ fn check_flaky(b: &[u8], t: &mut Tape, cx: &mut Cx) -> Res {
 
 /// the same decode on a thread with a 64 KiB stack (a stack overflow kills the process: observed by the supervisor)
 fn check_small_stack(b: &[u8], cx: &mut Cx) -> Res {
+    if FUZZ_MODE.load(std::sync::atomic::Ordering::Relaxed) {
+        return Ok(());
+    }
     cx.eval();
     cx.stage(STAGE_ARMED);
     let owned = b.to_vec();
@@ -270,7 +273,7 @@ fn check_small_stack(b: &[u8], cx: &mut Cx) -> Res {
             cx.class("decoded on a thread with a 64 KiB stack");
             Ok(())
         }
-        _ => fail("decode panicked on a thread with a 64 KiB stack", json!({"input": hex(b)})),
+        _ => cx.fail_sig(sig_of(b), "decode panicked on a thread with a 64 KiB stack", || json!({"input": hex(b)})),
     }
 }
 
